@@ -163,10 +163,12 @@ def call_step(c, funcs, arg, variant, getf=None):
     if s == "inexact_proximal_step":
         return ps.inexact_proximal_step(arg(c["a"]), f, gamma, opt=o)
     if s == "exact_linesearch_step":
-        # a user keeps ONE list of directions and passes it to every line search: same list object for equal dirs
-        key = tuple(c["dirs"])
+        # a user keeps ONE list of directions and passes it to every line search: the same list object whenever the
+        # directions are the same objects ("R1"/"R2" designate other points after every call that returns a tuple)
+        objs = [arg(d) for d in c["dirs"]]
+        key = tuple(id(o) for o in objs)
         if key not in DIRS_CACHE:
-            DIRS_CACHE[key] = [arg(d) for d in c["dirs"]]
+            DIRS_CACHE[key] = objs            # (keeps the objects alive: their ids are not reused)
         return ps.exact_linesearch_step(arg(c["a"]), f, DIRS_CACHE[key])
     if s == "bregman_gradient_step":
         return ps.bregman_gradient_step(arg(c["b"]), arg(c["a"]), h, gamma)
